@@ -52,15 +52,24 @@ func cycleTag(args string) (func(io.Writer, render.Context) error, error) {
 		if loopVar == nil {
 			return ctx.Errorf("cycle must be within a forloop")
 		}
-		// The next few lines could panic if the user spoofs us by creating their own loop object.
-		// “C++ protects against accident, not against fraud.” – Bjarne Stroustrup
-		loopRec := loopVar.(map[string]any)
-		cycleMap := loopRec[".cycles"].(map[string]int)
+		// The loop record is an ordinary binding that a template or caller can shadow,
+		// so check its shape instead of trusting it.
+		loopRec, ok := loopVar.(map[string]any)
+		if !ok {
+			return ctx.Errorf("cycle must be within a forloop")
+		}
+		cycleMap, ok := loopRec[".cycles"].(map[string]int)
+		if !ok || cycleMap == nil {
+			return ctx.Errorf("cycle must be within a forloop")
+		}
 		group, values := cycle.Group, cycle.Values
 		n := cycleMap[group]
+		if n < 0 {
+			n = 0
+		}
 		cycleMap[group] = n + 1
 		// The parser guarantees that there will be at least one item.
-		_, err = io.WriteString(w, values[n%len(values)])
+		_, err := io.WriteString(w, values[n%len(values)])
 		return err
 	}, nil
 }
